@@ -280,9 +280,9 @@ def bits2f(s: str) -> float:
 # the secondary reals are powers of two (exact quotients) and small integers (exact powers)
 ROWS_GENERAL = [
     (7, 1.5, 2.5, True, 2, 2.0, 4.0, False),
-    (0, -2.5, 0.75, False, 3, 0.5, -2.0, True),
+    (0, -2.5, 0.75, False, 4, 0.5, -2.0, True),
     (-3, 3.0, -1.25, True, 1, 4.0, 2.0, True),
-    (2, 0.0, 6.0, False, 7, -2.0, 0.5, False),
+    (2, 0.0, 6.0, False, 8, -2.0, 0.5, False),
     (1, 0.5, 0.0, True, 0, 2.0, 0.0, True),
     (5, 6.0, 1.5, False, 2, 1.0, 8.0, False),
 ]
